@@ -713,6 +713,46 @@ macro_rules! float_total {
 }
 //@harness name=float_f_prec0 tier=quick timeout=900 unwind=32 desc="%.0f never panics (the remainder is exact in CBMC's model when the denominator is 1)" bounds="value: every finite double; width <= 12; every flag subset"
 float_total!(float_f_prec0, 0, true);
+//@harness name=float_f_prec0_value tier=quick timeout=900 unwind=32 desc="%.0f of a small value prints round-half-up of |v| (std.jsonnet: whole = floor((|n| * 10^prec + 0.5) / 10^prec)), with a leading '-' exactly for negative v; the remainder is exact in CBMC's model when the denominator is 1" bounds="every finite double with |v| < 1000; no flags, no width"
+#[kani::proof]
+#[kani::unwind(32)]
+pub fn float_f_prec0_value() {
+    let v: f64 = kani::any();
+    kani::assume(v.is_finite() && v.abs() < 1000.0);
+    let flags = CFlags { alt: false, zero: false, left: false, blank: false, sign: false };
+    let code = Code { mkey: "", cflags: flags, width: Width::Fixed(0), precision: Some(Width::Fixed(0)), convtype: ConvTypeV::Float, caps: false };
+    // reference: round half up on the magnitude (exact for |v| < 2^52)
+    let want = (v.abs() + 0.5).floor();
+    let wi = want as u32;
+    #[cfg(verif_playback)]
+    {
+        println!("REPLAY-INPUT: value={:e} want={}", v, wi);
+        println!("REPLAY-JSONNET: std.format('%.0f', [{:e}])", v);
+        println!("REPLAY-EXPECT: value \"{}{}\"", if v < 0.0 { "-" } else { "" }, wi);
+        println!("REPLAY-ROLE: C12.float.f0.value");
+    }
+    let mut out = FString::new();
+    let r = format_code(&mut out, &Val::Num(NumValue::new(v).unwrap()), &code, 0, Some(0));
+    assert!(r.is_ok(), "C12.float.total float conversion of a number must succeed");
+    let ob = out.as_bytes();
+    let neg = v < 0.0;
+    let start = if neg { 1 } else { 0 };
+    assert!(ob.len() >= start + 1 && ob.len() <= start + 4, "C12.float.f0.len one to four digits after the optional sign");
+    assert!(!neg || ob[0] == b'-', "C12.float.f0.sign negative values start with '-'");
+    let mut got: u32 = 0;
+    let mut i = 0;
+    while i < 5 {
+        if i >= start && i < ob.len() {
+            assert!(ob[i] >= b'0' && ob[i] <= b'9', "C12.float.f0.digits only digits after the sign");
+            got = got * 10 + (ob[i] - b'0') as u32;
+        }
+        i += 1;
+    }
+    assert!(got == wi, "C12.float.f0.value %.0f prints floor(|v| + 0.5)");
+    kani::cover!(v == 2.5, "tie reached");
+    kani::cover!(v < 0.0 && wi == 0, "negative value rounding to zero reached");
+    kani::cover!(wi == 1000, "carry into a fourth digit reached");
+}
 //@harness name=float_e_prec0 tier=thorough optional=1 timeout=3600 unwind=32 spurious="." desc="%.0e never panics (CBMC over-approximates powf used for the mantissa: every failure must reproduce natively to count)" bounds="value: every finite double; width <= 12; every flag subset"
 float_total!(float_e_prec0, 1, true);
 //@harness name=float_g_prec0 tier=thorough timeout=3600 unwind=32 spurious="iv >= 0.0|render_integer receives sign" desc="%.0g never panics (the scientific branch uses powf, over-approximated by CBMC: a failure of render_integer's sign assertion counts only when it reproduces natively)" bounds="value: every finite double; width <= 12; every flag subset"
